@@ -48,6 +48,7 @@ type echoCfg struct {
 	intensity  int
 	reusePhase int // sequential requests issued after the late answers were delivered
 	bigFrames  bool
+	padTokens  bool
 	seed       int64
 }
 
@@ -76,7 +77,36 @@ type echoResult struct {
 	conservation  []string
 	afterClose    []string
 	dataConns     []*fakenode.ServerConn
-	wireProblems  []string
+	wireProblems  []wireProblem
+	byToken       map[string]string // token -> outcome class
+	preCancelled  map[string]bool
+	wireFrames    int64
+	wireBytes     int64
+	cutsInjected  int
+	partialTails  int
+	writes        map[string]writeObs // token -> what the writer told exec
+}
+
+type writeObs struct {
+	n, size int
+	err     string
+}
+
+func tokenOf(frame []byte) string {
+	i := strings.Index(string(frame), "ECHO ")
+	if i < 0 {
+		return ""
+	}
+	j := i + 5
+	for j < len(frame) && (frame[j] == '_' || (frame[j] >= '0' && frame[j] <= '9') || (frame[j] >= 'a' && frame[j] <= 'z')) {
+		j++
+	}
+	return string(frame[i+5 : j])
+}
+
+type wireProblem struct {
+	key  string
+	what string
 }
 
 // streamObs implements gocql.StreamObserver and counts starts / ends per stream context.
@@ -322,7 +352,7 @@ func (badMarshal) MarshalCQL(info gocql.TypeInfo) ([]byte, error) {
 
 // runEcho runs one scenario and returns what the monitors saw.
 func runEcho(c *runner.Ctx, ec *echoCfg) *echoResult {
-	res := &echoResult{outcomes: map[string]int{}, streamObs: &streamObs{open: map[*streamCtx]bool{}}}
+	res := &echoResult{outcomes: map[string]int{}, streamObs: &streamObs{open: map[*streamCtx]bool{}}, byToken: map[string]string{}, preCancelled: map[string]bool{}}
 	cl := fakenode.NewCluster(1)
 	res.cluster = cl
 	en := &echoNode{cfg: ec, arrivals: map[string]int{}, where: map[string]string{}, window: map[*fakenode.ServerConn][]*fakenode.Req{}, answered: map[*fakenode.ServerConn]int{}, late: map[string]time.Time{}}
@@ -336,6 +366,22 @@ func runEcho(c *runner.Ctx, ec *echoCfg) *echoResult {
 			return f
 		}
 	}
+	res.writes = map[string]writeObs{}
+	var wmu sync.Mutex
+	gocql.VerifSetWriteObserver(func(frame []byte, n int, err error) {
+		tok := tokenOf(frame)
+		if tok == "" {
+			return
+		}
+		o := writeObs{n: n, size: len(frame)}
+		if err != nil {
+			o.err = err.Error()
+		}
+		wmu.Lock()
+		res.writes[tok] = o
+		wmu.Unlock()
+	})
+	defer gocql.VerifSetWriteObserver(nil)
 	ctl := perturb.Install(ec.seed, ec.intensity, 2*time.Millisecond)
 	ctl.Activity = &c.Activity
 	defer perturb.Uninstall()
@@ -383,6 +429,11 @@ func runEcho(c *runner.Ctx, ec *echoCfg) *echoResult {
 		if cancel != nil {
 			defer cancel()
 		}
+		if x < ec.pPreCancel {
+			mu.Lock()
+			res.preCancelled[token] = true
+			mu.Unlock()
+		}
 		var got string
 		var err error
 		if !strings.HasPrefix(token, "u") && r.Intn(100) < ec.pBadValue {
@@ -420,6 +471,7 @@ func runEcho(c *runner.Ctx, ec *echoCfg) *echoResult {
 		}
 		mu.Lock()
 		res.outcomes[cls]++
+		res.byToken[token] = cls
 		if bad != "" && len(res.mismatches) < 20 {
 			res.mismatches = append(res.mismatches, bad)
 		}
@@ -437,7 +489,11 @@ func runEcho(c *runner.Ctx, ec *echoCfg) *echoResult {
 			defer wg.Done()
 			r := rand.New(rand.NewSource(seed))
 			for k := 0; k < ec.perCaller; k++ {
-				oneCall(r, fmt.Sprintf("t%d_%d_%d", c.Case, g, k))
+				tok := fmt.Sprintf("t%d_%d_%d", c.Case, g, k)
+				if ec.padTokens && (g+k)%3 == 0 {
+					tok += "_" + strings.Repeat("x", 150+r.Intn(200))
+				}
+				oneCall(r, tok)
 			}
 		}(g)
 	}
@@ -497,6 +553,13 @@ func runEcho(c *runner.Ctx, ec *echoCfg) *echoResult {
 		if !sc.IsControl {
 			res.dataConns = append(res.dataConns, sc)
 		}
+	}
+	if ec.closeSessionAfter < 0 {
+		mu.Lock()
+		wmu.Lock()
+		echoWire(res, cl)
+		wmu.Unlock()
+		mu.Unlock()
 	}
 	closeSess()
 	// after close: every connection closed, further queries fail immediately
@@ -599,4 +662,103 @@ func echoConservation(sess *gocql.Session, cl *fakenode.Cluster) []string {
 		time.Sleep(20 * time.Millisecond)
 	}
 	return out
+}
+
+// echoWire checks the byte stream the driver wrote on every connection (C07):
+// frame* [partial-frame iff the driver then closed the connection], every token at most once,
+// acknowledged writes are whole, cancelled-before-write calls left no bytes, nothing after a
+// short write.
+func echoWire(res *echoResult, cl *fakenode.Cluster) {
+	seen := map[string]int{}
+	add := func(key, what string) {
+		if len(res.wireProblems) < 30 {
+			res.wireProblems = append(res.wireProblems, wireProblem{key, what})
+		}
+	}
+	for _, sc := range cl.AllConns() {
+		written, cut, cutOff, after := sc.Driver.Snapshot()
+		res.wireBytes += int64(len(written))
+		kind := "direct"
+		if cut {
+			res.cutsInjected++
+		}
+		if after > 0 {
+			add("C07:bytes-after-short-write", fmt.Sprintf("connection #%d accepted %d more bytes after it had returned a short write at offset %d", sc.Index, after, cutOff))
+		}
+		b := written
+		off := 0
+		for len(b) > 0 {
+			h, err := cqlref.ParseHeader(b)
+			if err != nil || len(b) < cqlref.HeaderSize(h.Version)+h.Length {
+				// incomplete tail
+				res.partialTails++
+				deadline := time.Now().Add(2 * time.Second)
+				for !sc.Driver.Closed() && time.Now().Before(deadline) {
+					time.Sleep(time.Millisecond)
+				}
+				if !sc.Driver.Closed() {
+					add("C07:partial-frame-on-open-connection", fmt.Sprintf("connection #%d: the stream ends in an incomplete frame at offset %d (%d stray bytes) but the driver did not close the connection", sc.Index, off, len(b)))
+				}
+				break
+			}
+			if h.Version < 1 || h.Version > 5 || h.Response || h.Length < 0 {
+				add("C07:not-a-frame-sequence:"+kind, fmt.Sprintf("connection #%d: bytes at offset %d are not a request frame header: %x", sc.Index, off, clip(b)))
+				break
+			}
+			n := cqlref.HeaderSize(h.Version) + h.Length
+			body := b[cqlref.HeaderSize(h.Version):n]
+			if h.Flags&cqlref.FlagCompress == 0 {
+				rq, derr := cqlref.DecodeRequest(h, body)
+				if derr != nil {
+					add("C07:not-a-frame-sequence:"+kind, fmt.Sprintf("connection #%d: frame at offset %d does not decode (%v): interleaved or torn bytes", sc.Index, off, derr))
+					break
+				}
+				if rq.Header.Op == cqlref.OpQuery && strings.HasPrefix(rq.Statement, "ECHO ") {
+					seen[strings.TrimPrefix(rq.Statement, "ECHO ")]++
+				}
+			}
+			res.wireFrames++
+			b = b[n:]
+			off += n
+		}
+	}
+	for tok, n := range seen {
+		if n > 1 {
+			add("C07:frame-twice", fmt.Sprintf("the request %s appears %d times on the wire", tok, n))
+		}
+		if res.preCancelled[tok] {
+			add("C07:bytes-for-cancelled-request", fmt.Sprintf("request %s was submitted with an already cancelled context but its frame is on the wire", tok))
+		}
+	}
+	var all []string
+	for _, sc := range cl.AllConns() {
+		w, _, _, _ := sc.Driver.Snapshot()
+		all = append(all, string(w))
+	}
+	onWire := func(tok string) bool {
+		for _, w := range all {
+			if strings.Contains(w, "ECHO "+tok) {
+				// make sure it is not a prefix of a longer token
+				i := strings.Index(w, "ECHO "+tok)
+				j := i + 5 + len(tok)
+				if j >= len(w) || !(w[j] == '_' || (w[j] >= '0' && w[j] <= '9') || (w[j] >= 'a' && w[j] <= 'z')) {
+					return true
+				}
+			}
+		}
+		return false
+	}
+	for tok, o := range res.writes {
+		switch {
+		case o.err == "" && o.n == o.size && seen[tok] == 0:
+			add("C07:write-reported-ok-but-frame-missing", fmt.Sprintf("the writer reported that the %d-byte frame of request %s was written, but no complete frame for it is in the byte stream", o.size, tok))
+		case o.err != "" && o.n == 0 && onWire(tok):
+			add("C07:bytes-for-unwritten-request", fmt.Sprintf("the writer reported 0 bytes written (%s) for request %s, yet its frame is on the wire", o.err, tok))
+		}
+	}
+	for tok, cls := range res.byToken {
+		if (cls == "ok" || cls == "server-error" || cls == "timeout") && seen[tok] == 0 {
+			add("C07:acknowledged-write-missing", fmt.Sprintf("request %s ended with %q (its write was reported successful) but no complete frame for it is in the byte stream", tok, cls))
+		}
+	}
 }
